@@ -23,6 +23,7 @@ type Cfg struct {
 	ValCap   int    `json:"val_cap"`             // caller contact/param array capacity, -1 = none
 	HdrType  int    `json:"hdr_type,omitempty"`  // header kind for name-addr drivers
 	WithVals bool   `json:"with_vals,omitempty"` // header drivers: pass a PHdrVals (false: nil)
+	EndMode  bool   `json:"end_mode,omitempty"`  // Flags contain a documented end-of-input mode on EVERY call: exempt from C03
 }
 
 func (c Cfg) String() string {
@@ -353,6 +354,11 @@ type Explorer[T any] struct {
 	MaxSusp    int      // cap on |Susp(w)| (0 = 64)
 	Probes     [][]byte // C03: continuations appended below every node with a definitive verdict
 	SplitDepth int      // job granularity: 1 or 2 fragment levels
+	// Realloc: every node's calls (the one-shot call and all resumed calls) get the current prefix in a buffer of
+	// their own - exactly as long as the prefix (cap == len) and in another backing array than the calls one byte
+	// earlier: a receive buffer that is re-allocated while it grows. A parser that keeps a reference to the buffer of
+	// an earlier call then reads a stale array or runs over its capacity.
+	Realloc bool
 }
 
 // getNode returns a recycled node record for stack position i with a pristine object in it
@@ -396,6 +402,7 @@ type worker[T any] struct {
 	count   bool
 	hasSusp bool
 	ffresh  []*T
+	arena   [2][]byte
 }
 
 func junkBytes(kind string, n int) []byte {
@@ -704,6 +711,15 @@ func (w *worker[T]) visit(depth int) bool {
 	buf := w.buf
 	blen := len(buf)
 	nd := w.getNode(len(w.stack))
+	if e.Realloc {
+		ar := &w.arena[len(w.stack)&1]
+		if cap(*ar) < blen {
+			*ar = make([]byte, 2*blen+64)
+		}
+		cb := (*ar)[:blen:blen]
+		copy(cb, buf)
+		buf = cb
+	}
 	var pmsg string
 	nd.fn, nd.fe, pmsg = d.safeStep(nd.fresh, buf, base, cfg)
 	nd.fkey = d.key(nd.fresh, buf, nd.fkey[:0])
@@ -1002,7 +1018,9 @@ func replaySchedule[T any](prop string, d *Driver[T], c *Case, or Oracles) []*Vi
 	o := d.New(&cfg)
 	offs := base
 	for i, cut := range c.Cuts {
-		w := buf[:base+cut]
+		// every call gets a buffer of its own, exactly as long as the prefix (see Explorer.Realloc)
+		w := make([]byte, base+cut)
+		copy(w, buf)
 		useCfg := &midCfg
 		if i == len(c.Cuts)-1 {
 			useCfg = &cfg
